@@ -339,6 +339,24 @@ impl X<'_> {
     out
   }
 
+  /// specifiers of `import("…")` types
+  pub fn import_type_specifiers(&self) -> Vec<String> {
+    use deno_ast::swc::ecma_visit::Visit;
+    use deno_ast::swc::ecma_visit::VisitWith;
+    struct V {
+      out: Vec<String>,
+    }
+    impl Visit for V {
+      fn visit_ts_import_type(&mut self, n: &TsImportType) {
+        self.out.push(n.arg.value.to_string_lossy().to_string());
+        n.visit_children_with(self);
+      }
+    }
+    let mut v = V { out: vec![] };
+    self.src.program_ref().visit_with(&mut v);
+    v.out
+  }
+
   /// identifiers used in the module (type references and expressions), by name
   pub fn referenced_idents(&self) -> BTreeSet<String> {
     use deno_ast::swc::ecma_visit::Visit;
@@ -369,6 +387,30 @@ impl X<'_> {
           self.out.insert(i.sym.to_string());
         }
         p.visit_children_with(self);
+      }
+      // names of members are not references
+      fn visit_ts_property_signature(&mut self, n: &TsPropertySignature) {
+        if n.computed {
+          n.key.visit_with(self);
+        }
+        n.type_ann.visit_with(self);
+      }
+      fn visit_ts_method_signature(&mut self, n: &TsMethodSignature) {
+        if n.computed {
+          n.key.visit_with(self);
+        }
+        n.params.visit_with(self);
+        n.type_ann.visit_with(self);
+        n.type_params.visit_with(self);
+      }
+      fn visit_ts_getter_signature(&mut self, n: &TsGetterSignature) {
+        n.type_ann.visit_with(self);
+      }
+      fn visit_ts_setter_signature(&mut self, n: &TsSetterSignature) {
+        n.param.visit_with(self);
+      }
+      fn visit_ts_enum_member(&mut self, n: &TsEnumMember) {
+        n.init.visit_with(self);
       }
       fn visit_ts_type_query_expr(&mut self, n: &TsTypeQueryExpr) {
         if let TsTypeQueryExpr::TsEntityName(e) = n {
